@@ -976,3 +976,46 @@ pub fn make_arch(p: &Program) -> Result<Arch, String> {
     b.dedup();
     Ok(Arch { res, bytes: built.bytes, reader_keys: p.reader_keys(), header_len: hl, info: built.info, flush_lens: built.flush_lens, boundaries: b })
 }
+
+// ---------------------------------------------------------------- deterministic build through refimpl
+
+/// Encode the resolved program with the independent encoder: a pure function of the program
+/// (fixed key, nonce and ephemeral secret derived from the key seed), unlike the library writer
+/// which draws fresh secrets. Used where a case must be exactly reproducible (C08).
+pub fn build_refimpl(p: &Program, res: &Resolved) -> (Vec<u8>, Vec<[u8; 32]>) {
+    use crate::refimpl::{self, EncOp, EncodeOpts, Params};
+    let mut script = Vec::new();
+    for op in &res.ops {
+        match op {
+            ROp::Start { f } => script.push(EncOp::Start(*f)),
+            ROp::Append { f, len, class, seed, .. } => {
+                if *len > 0 {
+                    script.push(EncOp::Content(*f, data::gen(*class, *seed, *len)));
+                }
+            }
+            ROp::End { f } => script.push(EncOp::End(*f)),
+            ROp::Add { f, len, class, seed } => {
+                script.push(EncOp::Start(*f));
+                if *len > 0 {
+                    script.push(EncOp::Content(*f, data::gen(*class, *seed, *len)));
+                }
+                script.push(EncOp::End(*f));
+            }
+            ROp::Flush => {}
+        }
+    }
+    let inner = refimpl::encode_blocks(&res.names, &script);
+    let keys = p.keys();
+    let secrets: Vec<[u8; 32]> = keys.recipients.iter().map(|s| s.to_bytes()).collect();
+    let ks = p.key_seed as u64;
+    let o = EncodeOpts {
+        layers: res.layers,
+        quality: if SCALED { res.level as u32 } else { (res.level as u32).min(5) },
+        lgwin: 22,
+        key: util::seed32(ks, "refimpl-key", 0),
+        nonce: util::seed32(ks, "refimpl-nonce", 0)[..8].try_into().unwrap(),
+        eph_secret: util::seed32(ks, "refimpl-eph", 0),
+        recipients: keys.publics.iter().map(|k| *k.as_bytes()).collect(),
+    };
+    (refimpl::encode_layers(&inner, &o, Params::current()), secrets)
+}
